@@ -70,6 +70,7 @@ class Emitter:
         self.refvars = [set()]
         self.renames = self.cfg.get("rename", {})
         self.const_types = {}  # const_globals name -> C type
+        self.truncated = []  # units cut at a stop_at_call statement
         self.lib = libmap
         self.dropped = []
         self.callees = {}  # cname -> description
@@ -313,7 +314,16 @@ class Emitter:
                 return "(*%s)" % cname
             return cname
         if kind in ("FunctionDecl", "CXXMethodDecl"):
-            return self.fn_cname(None, name, (rd.get("type") or {}).get("qualType"))
+            fnt = (rd.get("type") or {}).get("qualType")
+            cname = self.fn_cname(None, name, fnt)
+            if cname == self.op_name(name) and kind == "CXXMethodDecl":
+                # address of a static member function: named like the configured unit `...::Class::name`, as calls are
+                cands = [u for u in self.cfg.get("units", [])
+                         if len(u["name"].split("::")) >= 2 and u["name"].split("::")[-1] == name]
+                if len(cands) == 1:
+                    cname = cands[0].get("cname") or \
+                        self.fn_cname(self.tm.struct_tag(cands[0]["name"].split("::")[-2]), name, fnt)
+            return cname
         if kind == "FieldDecl":
             # captured field inside a lambda body
             return "self->" + name
@@ -848,6 +858,26 @@ class Emitter:
         r = self.lib.construct(self, n) if self.lib else None
         if r is not None:
             return r
+        oc = self.cfg.get("opaque_ctor", {})
+        try:
+            octag = self.tm.class_tag_of(self.ptype(n))
+        except Unsupported:
+            octag = None
+        if octag in oc:
+            # config opaque_ctor {Class: [kept argument indices]}: the object is an opaque value made by an assumed callee
+            # Class__make(kept arguments); the other constructor arguments are not modelled.
+            args = [a for a in n.get("inner", [])]
+            pcs, avs = [], []
+            for i in oc[octag]:
+                r2 = self.infer_arg(args[i])
+                pcs.append(r2[0])
+                avs.append(r2[1])
+            cname = octag + "__make"
+            self.structs.setdefault(octag, {})
+            self.note_proto(cname, "struct " + octag, pcs, "opaque constructor of %s (arguments %s kept)" % (octag, oc[octag]))
+            self.callees.setdefault(cname, "%s::%s (opaque)" % (octag, octag))
+            self.callflag = True
+            return "%s(%s)" % (cname, ", ".join(avs))
         r = self.class_construct(n, None)
         if r is not None:
             return r
@@ -1191,6 +1221,21 @@ class Emitter:
     # ---------------------------------------------------------------- statements
     def S(self, n, ind):
         k = n.get("kind")
+        stops = self.cfg.get("stop_at_call")
+        if stops and k not in ("CompoundStmt", "IfStmt", "ForStmt", "WhileStmt", "DoStmt", "SwitchStmt", "CXXForRangeStmt",
+                               "CXXTryStmt", "CaseStmt", "DefaultStmt", "LabelStmt"):
+            # config stop_at_call: the unit is translated only up to the first simple statement that calls one of the
+            # listed functions (e.g. the simcall that hands over to the kernel): that statement becomes a return. The
+            # contract of the unit then speaks about the prefix only; the truncation is recorded in gen.json.
+            def hit(x):
+                if x.get("kind") in ("CallExpr", "CXXMemberCallExpr"):
+                    c = skip(x["inner"][0]) if x.get("inner") else {}
+                    nm = (c.get("referencedDecl") or {}).get("name") or c.get("name")
+                    return nm in stops
+                return False
+            if contains(n, hit):
+                self.truncated.append(self.unit.cname)
+                return [ind + "/* vf: unit truncated here (stop_at_call) */", ind + self.ret_zero()]
         m = getattr(self, "s_" + k, None)
         if m is not None:
             return m(n, ind)
@@ -1319,7 +1364,10 @@ class Emitter:
             if self.is_log_stmt(s):
                 self.dropped.append("log")
                 continue
-            out += self.S(s, ind + "  ")
+            part = self.S(s, ind + "  ")
+            out += part
+            if part and part[0].strip() == "/* vf: unit truncated here (stop_at_call) */":
+                break  # the rest of this block is behind the truncation point
         self.pop_scope()
         out.append(ind + "}")
         return out
